@@ -161,6 +161,12 @@ func init() {
 			bound: "for every task the real loadTasks builds over 81 file/database mixes x 4 source-reference sets: the (source, integration) names in the Task fields, in the context values the row builder stamps rows with, and in every destination are the same pair, and the chain id agrees (324 configurations)",
 		})}
 	})
+	boundedChecks["C17"] = append(boundedChecks["C17"], func(w *World, tier string, seed int, verif string) []boundedResult {
+		return []boundedResult{runHarness(w, verif, tier, seed, harnessSpec{
+			name: "hex-helpers", pkg: "eth", pkgName: "eth", dir: "hex", files: []string{"hex_bounded_test.go"}, run: "TestVerifHexBounded",
+			bound: "DecodeHex against an independent specification for every hex string of length 0..3 (both letter cases, with and without 0x/0X prefix); EncodeHex/DecodeHex round trips for every byte string of length 0..1, a sixteenth of length 2, and seeded random strings of 20..4096 bytes (lower and upper case spelling); EncodeUint64/DecodeUint64 round trips at 13 boundary values and seeded random ones, with padding and upper case",
+		})}
+	})
 	boundedChecks["C09"] = append(boundedChecks["C09"], func(w *World, tier string, seed int, verif string) []boundedResult {
 		return []boundedResult{runHarness(w, verif, tier, seed, harnessSpec{
 			name: "abi-decode-vs-spec", pkg: "dig", pkgName: "dig", dir: "abi", files: []string{"abi_bounded_test.go"}, run: "TestVerifABIBounded",
